@@ -548,12 +548,12 @@ ORDER = []
 
 
 def case(cid, keys, ref, api=None, text=None, uses='c', dom=None, lams=None, nones=True, pres=('tuple', 'iter'),
-         names=None, cost=1, nmax=None, raw=False):
+         names=None, cost=1, nmax=None, raw=False, small=False):
     """keys: registry keys 'yaqlName/payload_name' this case exercises (one condition per key)"""
     assert cid not in CASES, cid
     CASES[cid] = {'id': cid, 'keys': keys if isinstance(keys, list) else [keys], 'ref': ref, 'api': api, 'text': text,
                   'uses': set(uses.split()), 'dom': dom, 'lams': lams or {}, 'nones': nones, 'pres': pres,
-                  'cost': cost, 'nmax': nmax, 'raw': raw}
+                  'cost': cost, 'nmax': nmax, 'raw': raw, 'small': small}
     ORDER.append(cid)
 
 
@@ -604,7 +604,8 @@ case('distinct.key', 'distinct/distinct', r_distinct_key,
 case('enumerate', 'enumerate/enumerate_', lambda e: [[n, x] for n, x in enumerate(e.t)],
      api=lambda e, P, name: M(name, P(e.t)), text='$c.enumerate()', uses='c')
 case('enumerate.start', 'enumerate/enumerate_', lambda e: [[n + e.i, x] for n, x in enumerate(e.t)],
-     api=lambda e, P, name: M(name, P(e.t), e.i), text='$c.enumerate($i)', uses='c i')
+     api=lambda e, P, name: M(name, P(e.t), e.i), text='$c.enumerate($i)', uses='c i', raw=True,
+     dom=lambda e: -2 <= e.i <= 2)
 case('any', 'any/any_', lambda e: e.n > 0,
      api=lambda e, P, name: M(name, P(e.t)), text='$c.any()', uses='c')
 case('any.pred', 'any/any_', lambda e: len([x for x in e.t if e.P(x)]) > 0,
@@ -801,6 +802,18 @@ def mw_deep(e):
     return d1, d2
 
 
+def mw_nested(e):
+    return ({'n': flat_dict(e.i, e.t[0], e.t[1]), 'x': e.k, 'y': e.k},
+            {'n': flat_dict(e.j, e.u[0], e.u[1]), 'x': e.r, 'z': e.r})
+
+
+def mw_lists(e):
+    return {'l': list(e.t), 'x': 1}, {'l': list(e.u)}
+
+
+MW = {'mergeWith.flat': mw_flat, 'mergeWith.nested': mw_nested, 'mergeWith.lists': mw_lists}
+
+
 def mw_dom(e):
     return e.n == 2 and len(e.u) == 2 and 0 <= e.i <= 3 and 0 <= e.j <= 3
 
@@ -813,10 +826,15 @@ case('mergeWith.flat', 'mergeWith/merge_with',
      lambda e: r_merge(mw_flat(e)[0], mw_flat(e)[1], lambda a, b: uniq(a + b), second, 0),
      api=lambda e, P, name: M(name, freeze(mw_flat(e)[0]), freeze(mw_flat(e)[1])),
      text='$w1.mergeWith($w2)', uses='c d i j', dom=mw_dom, nones=False, pres=('tuple',))
-case('mergeWith.deep', 'mergeWith/merge_with',
-     lambda e: r_merge(mw_deep(e)[0], mw_deep(e)[1], lambda a, b: uniq(a + b), second, 0),
-     api=lambda e, P, name: M(name, freeze(mw_deep(e)[0]), freeze(mw_deep(e)[1])),
+case('mergeWith.nested', 'mergeWith/merge_with',
+     lambda e: r_merge(mw_nested(e)[0], mw_nested(e)[1], lambda a, b: uniq(a + b), second, 0),
+     api=lambda e, P, name: M(name, freeze(mw_nested(e)[0]), freeze(mw_nested(e)[1])),
      text='$w1.mergeWith($w2)', uses='c d i j k r', dom=mw_dom, nones=False, pres=('tuple',), cost=2)
+case('mergeWith.lists', 'mergeWith/merge_with',
+     lambda e: r_merge(mw_lists(e)[0], mw_lists(e)[1], lambda a, b: uniq(a + b), second, 0),
+     api=lambda e, P, name: M(name, freeze(mw_lists(e)[0]), freeze(mw_lists(e)[1])),
+     text='$w1.mergeWith($w2)', uses='c d', dom=lambda e: e.n <= 2 and len(e.u) <= 2, nones=False, pres=('tuple',),
+     cost=2)
 case('mergeWith.mergers', 'mergeWith/merge_with',
      lambda e: r_merge(mw_deep(e)[0], mw_deep(e)[1], lambda a, b: a + b, lambda a, b: a, 0),
      api=lambda e, P, name: M(name, freeze(mw_deep(e)[0]), freeze(mw_deep(e)[1]), e.L, e.I),
@@ -1062,6 +1080,13 @@ case('unpack.indexed', 'unpack/unpack', lambda e: [e.t[n] if n < e.n else None f
 case('with', 'with/with_', lambda e: [e.v, e.i, None], text='with($v, $i) -> [$1, $2, $3]', uses='v i',
      pres=('tuple',))
 
+# cases whose elements/constants become dictionary keys: CrossHair realises a symbolic int when it is hashed into a real
+# dict, so those are kept in a small range (elements 0..2, key constants -1..3) to keep the path tree finite
+for _cid in ['build_map.keys', 'dict.items', 'toDict', 'toDict.value', 'dict.indexer', 'dict.indexer.default', 'get',
+             'get.default', 'dict.set', 'dict.set.many', 'keys', 'values', 'items', 'containsKey', 'containsValue',
+             'plus.dicts', 'len.dict', 'dict.delete', 'deleteAll', 'groupBy', 'groupBy.value', 'groupBy.aggregate']:
+    CASES[_cid]['small'] = True
+
 EXTRA_KEYS = ['unpack/unpack', 'with/with_']   # registered by system.register, anchored by the property
 
 BY_KEY = {}
@@ -1095,7 +1120,7 @@ def bind(c, e, P, text):
         elif name == 'mz':
             out['mz'] = FD(a=e.i, z=e.j)
         elif name in ('w1', 'w2'):
-            out[name] = freeze((mw_flat if c['id'] == 'mergeWith.flat' else mw_deep)(e)[0 if name == 'w1' else 1])
+            out[name] = freeze(MW.get(c['id'], mw_deep)(e)[0 if name == 'w1' else 1])
         elif name == 's':
             out['s'] = e.s()
         elif name == 's2':
